@@ -56,6 +56,31 @@ CHECKS = {
         technique="fault injection enumerated over every SAT-call position of generated queries and dynamic histories (library wrapper, external process, command line)",
         text="For each generated problem / dynamic history the clean run is validated against the reference semantics and its k SAT calls counted; the query is then re-run for every position 1..k with the backend failing there: Unknown through a SatSolver wrapper, and {silent exit, non-zero exit, status without model, truncated model/status, stray line, s UNKNOWN, abort} through the harness-owned external solver, via ExternalSatSolver and via `crustabri solve --external-sat-solver`. Any returned status/extension/certificate, exit status 0 or answer line on stdout is a violation. All positions are enumerated per generated case; the cases themselves are sampled.",
         note="trusted: wrappers, fake_sat; positions exhaustive per case, cases generated (<=8 arguments, histories <=40/80 steps)"),
+    "C10": dict(
+        cat="translation_validation", ref="4 C10",
+        technique="translation validation of every generated CNF: exhaustive assumption probing of all argument subsets against brute-force families, driven by generated and exhaustively enumerated frameworks",
+        text="For each generated or enumerated framework with compact ids and each of the 7 encoders (plain and with range), the recorded clause list is validated exactly: for every subset S of the arguments, CNF+S is satisfiable iff S is in the intended family (conflict-free/admissible/complete/stable by brute force); assignment_to_extension returns S; range variables sound and complete; literal layout injective, positive, disjoint from range variables, within n_vars. Exact per program for <=10 arguments; programs are sampled (plus all digraphs on <=3/4 arguments).",
+        note="trusted: oracle.rs families, CadicalSolver as probe (checked by C15); frameworks <=10 arguments"),
+    "C12": dict(
+        cat="exploration", ref="4 C12",
+        technique="model-based stateful property testing (update histories vs a set model) + exhaustive enumeration of short histories",
+        text="Generated histories of up to 200/600 operations over 4-8 labels (usize and String) with arbitrary operands, full observable-state comparison with a set model after every step, Result vs precondition, id uniqueness/stability/no reuse; plus every 4-step (quick) / 5-step (thorough) history over two labels.",
+        note="trusted: the set model"),
+    "C14": dict(
+        cat="exploration", ref="4 C14",
+        technique="round-trip property testing with an independent tokenizer and byte-exact expected output",
+        text="Frameworks produced by generated update histories over identifier labels are written by AspartixWriter, checked byte-wise against the set model by an independent tokenizer, and read back by AspartixReader (same labels in order, same attacks); generated ordered extensions (incl. empty) through both response writers must produce exactly the specified bytes; statuses exactly YES/NO lines.",
+        note="trusted: the tokenizer (20 lines) and the set model; labels are valid Aspartix identifiers"),
+    "C18": dict(
+        cat="exploration", ref="4 C18",
+        technique="property-based testing with a counting/recording SAT wrapper whose cap is the stated bound (liveness reduced to a safety bound)",
+        text="Generated problems on frameworks of <=9/11 arguments (70% connected) run with a SAT factory that aborts at bound+1 calls, the bound being computed per component from brute-force counts exactly as the property states; recorded models on one instance must be pairwise distinct (PR) / at most twice (ID) when projected on the argument variables; DS queries of generated dynamic-preferred histories bounded by |CO|+|PR|+1.",
+        note="trusted: oracle.rs counts; termination of individual CaDiCaL calls assumed"),
+    "C19": dict(
+        cat="exploration", ref="4 C19",
+        technique="property-based testing + exhaustive small scope against brute-force complete extensions",
+        text="Generated frameworks (<=10/13 arguments, compact ids incl. duplicate attack lines) and all digraphs on <=3/4 arguments: classes of the reduction partition the arguments, the two mappings are inverse at class level, every class is inside or outside each complete extension, grounded and defeated sets each within one class, no panic.",
+        note="trusted: oracle.rs complete extensions"),
 }
 
 NOT_YET = "check not built yet in this session (work in progress; see DESIGN.md section 4 for the planned check)"
@@ -79,7 +104,7 @@ def main():
         })
     manifest = {
         "version": 1,
-        "setup_cmd": "cd /verif/harness && CARGO_NET_OFFLINE=true cargo build --release --offline",
+        "setup_cmd": "cd /verif/harness && CARGO_NET_OFFLINE=true cargo build --release --offline && CARGO_NET_OFFLINE=true cargo build --release --offline --bins --manifest-path /repo/Cargo.toml --target-dir /verif/target/repo",
         "hooks": {
             "guard": "--cfg crustabri_verif",
             "enable": "none needed: every check goes through public items of the crustabri library and its two binaries; the harness crate has a path dependency on /repo and rebuilds it on every check",
